@@ -905,6 +905,9 @@ class vPeriod(TimeBase):
         start, end_or_duration = per
         if not (isinstance(start, datetime) or isinstance(start, date)):
             raise ValueError('Start value MUST be a datetime or date instance')
+        if not isinstance(start, datetime):
+            # RFC 5545 3.3.9: a period starts with a DATE-TIME
+            raise ValueError('Start value MUST be a datetime instance, not a date')
         if not (isinstance(end_or_duration, datetime)
                 or isinstance(end_or_duration, date)
                 or isinstance(end_or_duration, timedelta)):
